@@ -24,10 +24,11 @@ const (
 	KCoCreate             // coroutine.create + resume loop + coroutine.close
 	KCoWrap               // coroutine.wrap + call loop
 	KGenFor               // for i in it, nil, 0, <closing value> do ... end  (2 iterations)
+	KXpcall               // emit("xpcall", xpcall(function() ... end, msgh))   msgh logs and passes the error on
 	NKinds
 )
 
-var kindName = [...]string{"chunk", "do", "for", "while", "repeat", "func", "pcall", "cocreate", "cowrap", "genfor"}
+var kindName = [...]string{"chunk", "do", "for", "while", "repeat", "func", "pcall", "cocreate", "cowrap", "genfor", "xpcall"}
 
 func (k Kind) String() string { return kindName[k] }
 func (k Kind) IsLoop() bool   { return k == KFor || k == KWhile || k == KRepeat || k == KGenFor }
@@ -294,8 +295,10 @@ const (
 	preHSwap   = `local function hswap(n) return setmetatable({name = n}, {__close = function(o, e) emit("old handler", o.name, e) end}) end`
 	preRF      = `local function rf(x) emit("rf", x) return x, "r2" end`
 	preBoom    = `local function boom() error("B", 0) end`
-	preIt      = `local function it(s, k) if k < 2 then return k + 1 end end`
-	preItBad   = `local function it(s, k) if bad then error("I", 0) end if k < 2 then return k + 1 end end`
+	preIt      = `local function it(s, k) emit("it", k) if k < 2 then return k + 1 end end`
+	preItBad   = `local function it(s, k) emit("it", k) if bad then error("I", 0) end if k < 2 then return k + 1 end end`
+	preC       = `local function C(n) emit("cond", n) return n < 2 end`
+	preMsgh    = `local function msgh(e) emit("msgh", e) return e end`
 	preU       = `local function U(n, o) emit("until", n, o and o.name) return n >= 2 end`
 )
 
@@ -339,11 +342,18 @@ func (s *Spec) Lua() string {
 	if s.Exit == XError {
 		w.ln("local ET = {}")
 	}
+	has := map[Kind]bool{}
 	for _, k := range s.Nest {
-		if k == KRepeat {
-			w.ln(preU)
-			break
-		}
+		has[k] = true
+	}
+	if has[KRepeat] {
+		w.ln(preU)
+	}
+	if has[KWhile] {
+		w.ln(preC)
+	}
+	if has[KXpcall] {
+		w.ln(preMsgh)
 	}
 	if s.Exit != XFall {
 		w.ln("local c = 0")
@@ -516,7 +526,7 @@ func (s *Spec) construct(w *writer, l int) {
 		w.ln("end")
 	case KWhile:
 		w.ln("local n%d = 0", l)
-		w.ln("while n%d < 2 do", l)
+		w.ln("while C(n%d) do", l)
 		w.ind++
 		w.ln("n%d = n%d + 1", l, l)
 		w.ind--
@@ -539,6 +549,10 @@ func (s *Spec) construct(w *writer, l int) {
 		w.ln(`emit("pcall", pcall(function()`)
 		in()
 		w.ln("end))")
+	case KXpcall:
+		w.ln(`emit("xpcall", xpcall(function()`)
+		in()
+		w.ln("end, msgh))")
 	case KCoCreate:
 		w.ln("local co%d = coroutine.create(function()", l)
 		in()
